@@ -2,7 +2,7 @@
 # usage: confirm_capi_seed.sh <seeddir> <name> <demo.rs>   -- C API seeds: demo runs in a harness crate compiling c-api/src against the worktree
 SD="$1"; NAME="$2"; DEMO="$3"
 WT=/tmp/w/confirm_wt_$NAME
-TG=/tmp/w/confirm_tgt
+TG=${CONFIRM_TGT:-/tmp/w/confirm_tgt}
 LOG=/tmp/w/confirm_$NAME.log
 exec >"$LOG" 2>&1
 export CARGO_NET_OFFLINE=true CARGO_TARGET_DIR=$TG
